@@ -22,11 +22,14 @@ type c12Txn struct {
 	SentBy string
 	At     labRx
 	Prov   int
+	CallID string // "c12-"+ID unless it is the CANCEL of another transaction
+	Wire   string // the request as sent (a CANCEL copies its Via, From, To, Call-ID)
+	Cancel bool
 }
 
 func TestC12(t *testing.T) {
-	V.Rule("lab: rapid state machines over 2-8 simultaneous client connections to one TCP listener, all from one loopback address (one address of the process's private block stands in for 127.0.0.1), each request announcing a Via sent-by drawn from a set of 1-3 values that are shared between connections (equal sent-by on different connections is the common case), with or without rport, pairwise distinct branches that share a stem and end in a small running number (one is often a prefix of another), listen entries with received-support on and off; requests go to UDP and TCP backends; the backends answer outstanding transactions in any order across connections, 1xx (0-3 per transaction) before the single final response, INVITE and non-INVITE; unrelated UDP traffic and new connections in between; now and then a sent-by that names the real source port of another live connection, and once per history up to 160 complete transactions on the connections while others stay pending; on a separate instance a user agent connection and the connection to a TCP backend carry a provisional response, stay idle for 5.3 s (thorough 7.5 s) and must then still carry the final response. Oracle: every response is read on the connection whose request it answers and on no other connection; nothing is dialled to the announced sent-by address or to (client address, sent-by port), where the harness listens. non-trivial = history with >= 2 connections sharing a sent-by and >= 2 transactions open at once answered in another order than sent; distinct by history")
-	V.Require(">= 70 transactions completed while others stayed pending", "sent-by names the source port of another live connection", "response after a connection stayed idle for > 5 s", "a branch is a prefix of another branch of the history", "connections share a sent-by", ">=2 transactions open at once", "answered out of order", "provisional before final", "non-INVITE with provisional", "support:off", "support:on", "tcp backend", "udp backend")
+	V.Rule("lab: rapid state machines over 2-8 simultaneous client connections to one TCP listener, all from one loopback address (one address of the process's private block stands in for 127.0.0.1), each request announcing a Via sent-by drawn from a set of 1-3 values that are shared between connections (equal sent-by on different connections is the common case), with or without rport, pairwise distinct branches that share a stem and end in a small running number (one is often a prefix of another), listen entries with received-support on and off; requests go to UDP and TCP backends; the backends answer outstanding transactions in any order across connections, 1xx (0-3 per transaction) before the single final response, INVITE and non-INVITE, CANCEL of a pending INVITE (same branch, answered independently); unrelated UDP traffic and new connections in between; now and then a sent-by that names the real source port of another live connection, and once per history up to 160 complete transactions on the connections while others stay pending; on a separate instance a user agent connection and the connection to a TCP backend carry a provisional response, stay idle for 5.3 s (thorough 7.5 s) and must then still carry the final response. Oracle: every response is read on the connection whose request it answers and on no other connection; nothing is dialled to the announced sent-by address or to (client address, sent-by port), where the harness listens. non-trivial = history with >= 2 connections sharing a sent-by and >= 2 transactions open at once answered in another order than sent; distinct by history")
+	V.Require("CANCEL with the INVITE's branch, both answered", ">= 70 transactions completed while others stayed pending", "sent-by names the source port of another live connection", "response after a connection stayed idle for > 5 s", "a branch is a prefix of another branch of the history", "connections share a sent-by", ">=2 transactions open at once", "answered out of order", "provisional before final", "non-INVITE with provisional", "support:off", "support:on", "tcp backend", "udp backend")
 	s, err := newStdSvc(stdVariant{NoReceived: [3]string{"", "true", ""}})
 	if err != nil {
 		V.HarnessError(t, "cannot start lab instance: %v", err)
@@ -141,6 +144,7 @@ func TestC12(t *testing.T) {
 				}
 				wire := []byte(fmt.Sprintf("%s sip:svc.test SIP/2.0\r\nVia: SIP/2.0/TCP %s;branch=z9hG4bK%s%s\r\nFrom: <sip:c%d@client.example>;tag=f%s\r\nTo: <sip:svc@nomatch.example>\r\nCall-ID: c12-%s\r\nCSeq: 1 %s\r\nContent-Length: 0\r\n\r\n",
 					tx.Method, tx.SentBy, branch, rport, ci, tx.ID, tx.ID, tx.Method))
+				tx.CallID, tx.Wire = "c12-"+tx.ID, string(wire)
 				hist = append(hist, fmt.Sprintf("c%d sends %s %s (sent-by %s%s)", ci, tx.Method, tx.ID, tx.SentBy, rport))
 				V.Journal(t.Name()+"/histories", hist)
 				sb, _ := splitHostPort(tx.SentBy)
@@ -217,12 +221,54 @@ func TestC12(t *testing.T) {
 				if len(got) != 1 || got[0].tcp != conns[tx.Conn] {
 					failf(rt, "response %d to %s must be written to connection c%d (%s), the one the request used, and nowhere else; receptions:\n%shistory: %v", code, tx.ID, tx.Conn, conns[tx.Conn], labDescribe(got), hist)
 				}
-				if id, _ := got[0].msg.First(hCallID); id != "c12-"+tx.ID {
+				if id, _ := got[0].msg.First(hCallID); id != tx.CallID {
 					failf(rt, "connection c%d received a response with Call-ID %q while %s was answered\nhistory: %v", tx.Conn, id, tx.ID, hist)
+				}
+				if cs, _ := got[0].msg.First(hCSeq); !strings.HasSuffix(cs, " "+tx.Method) {
+					failf(rt, "connection c%d received a response with CSeq %q while the %s %s was answered\nhistory: %v", tx.Conn, cs, tx.Method, tx.ID, hist)
 				}
 				if code >= 200 {
 					outstanding = append(outstanding[:k], outstanding[k+1:]...)
 				}
+			},
+			"clientCancels": func(rt *rapid.T) {
+				// RFC 3261 9.1: the CANCEL of a pending INVITE carries the INVITE's
+				// Request-URI, Call-ID, To, From, CSeq number and top Via - branch included.
+				// Both transactions are then answered independently (200 to the CANCEL, 487
+				// to the INVITE, in either order) and both answers belong on the connection
+				var cand []*c12Txn
+				for _, o := range outstanding {
+					if o.Method == "INVITE" && !o.Cancel {
+						cand = append(cand, o)
+					}
+				}
+				if len(cand) == 0 || len(outstanding) >= 10 {
+					rt.Skip("no pending INVITE")
+				}
+				inv := cand[rapid.IntRange(0, len(cand)-1).Draw(rt, "which INVITE")]
+				inv.Cancel = true
+				wire := strings.Replace(strings.Replace(inv.Wire, "INVITE sip:", "CANCEL sip:", 1), "CSeq: 1 INVITE", "CSeq: 1 CANCEL", 1)
+				tx := &c12Txn{ID: inv.ID + "-cancel", Conn: inv.Conn, Method: "CANCEL", SentBy: inv.SentBy, CallID: inv.CallID, Wire: wire, Cancel: true}
+				c := conns[tx.Conn]
+				hist = append(hist, fmt.Sprintf("c%d sends CANCEL for %s (same branch)", tx.Conn, inv.ID))
+				V.Journal(t.Name()+"/histories", hist)
+				s.in.expect([]byte(wire))
+				if err := c.send([]byte(wire)); err != nil {
+					V.HarnessError(rt, "send: %v", err)
+				}
+				rs, err := s.in.settle(c.send, 1)
+				if _, lost := err.(labLost); lost {
+					failf(rt, "%v\nhistory: %v", err, hist)
+				} else if err != nil {
+					V.HarnessError(rt, "%v", err)
+				}
+				got := labMessages(rs)
+				if len(got) != 1 || !s.isBackendOf(got[0].ep, entry, got[0].tcp != nil) {
+					failf(rt, "the CANCEL for %s must reach exactly one backend; receptions:\n%shistory: %v", inv.ID, labDescribe(got), hist)
+				}
+				tx.At = got[0]
+				outstanding = append(outstanding, tx)
+				V.Class("CANCEL with the INVITE's branch, both answered")
 			},
 			"manyOtherTransactions": func(rt *rapid.T) {
 				if bursts >= 1 || totalBursts >= V.N(12, 150) || len(outstanding) == 0 || rapid.IntRange(0, 3).Draw(rt, "really") != 0 {
